@@ -244,10 +244,42 @@ def rule_r1_r2(ctx: Ctx) -> None:
 
 def rule_r3(ctx: Ctx) -> None:
     ctx.rule("C18.R3", "immutability: no instance attribute store or in-place mutation outside __init__ in model classes (exceptions: the four memo slots)", min_instances=30)
+    repo = ctx.repo
+
+    def construction_only(c: ClassInfo) -> Set[str]:
+        """private methods that run only while an instance is being constructed: every `self.m(...)` / `super().m(...)` call of
+        them anywhere in the class hierarchy is inside a constructor or inside another such method (they are part of __init__,
+        whatever it was split into); a method whose name is referenced in any other way is not one of them"""
+        family = [k for k in repo.all_classes().values() if repo.is_subclass(k, c) or repo.is_subclass(c, k)]
+        cand = {n_ for n_ in c.methods if n_.startswith("_") and not n_.startswith("__") and not c.methods[n_].is_property}
+        changed = True
+        while changed:
+            changed = False
+            for m_ in sorted(cand):
+                ok_ = False
+                bad_ = False
+                for k in family:
+                    for holder_name, holder in k.methods.items():
+                        for node in ast.walk(holder.node):
+                            if isinstance(node, ast.Attribute) and node.attr == m_:
+                                from ..core import parents_map  # noqa: F401
+
+                                is_call = any(isinstance(p_, ast.Call) and p_.func is node for p_ in ast.walk(holder.node))
+                                recv_ok = (isinstance(node.value, ast.Name) and node.value.id == "self") or (isinstance(node.value, ast.Call) and dotted(node.value.func) == "super")
+                                if is_call and recv_ok and (holder_name == "__init__" or (holder_name in cand and k is c)):
+                                    ok_ = True
+                                else:
+                                    bad_ = True
+                if bad_ or not ok_:
+                    cand.discard(m_)
+                    changed = True
+        return cand
+
     for c in model_classes(ctx):
         offenders = []
+        ctor_parts = construction_only(c)
         for name, fn in c.methods.items():
-            if name == "__init__":
+            if name == "__init__" or name in ctor_parts:
                 continue
             for n in walk_no_nested(fn.node):
                 targets: List[ast.AST] = []
